@@ -336,6 +336,71 @@ def _ord(fn, node):
     return 0
 
 
+def quoted_regexes(ctx):
+    """Inside quotes a DATA item is taken verbatim.  The grammar has one
+    regex for a closed quoted item and one for a quoted item whose closing
+    quote is missing at the end of the line; what they accept between the
+    quotes must be the same, line terminators aside."""
+    try:
+        import re._parser as sre_parse
+    except ImportError:   # pragma: no cover
+        import sre_parse
+    repo = ctx.repo
+    rule = 'C15.quoted-item-regexes-accept-the-same-text'
+    ctx.rule(rule, 'every Regex of the grammar that starts with a double '
+             'quote (DATA / string items) excludes, after the opening quote, '
+             'only the quote itself and line terminators: a comma or a colon '
+             'inside quotes is part of the item in the closed and in the '
+             'unclosed form alike')
+    g = repo.module('qbee.grammar')
+    n = 0
+    for name, v in sorted(g.assigns.items()):
+        for c in ast.walk(v):
+            if not (isinstance(c, ast.Call) and dotted(c.func) == 'Regex'
+                    and c.args and isinstance(const(c.args[0]), str)):
+                continue
+            pat_ = const(c.args[0])
+            try:
+                items = list(sre_parse.parse(pat_))
+            except Exception:
+                continue
+            if not items or items[0] != (sre_parse.LITERAL, 34):
+                continue
+            body = items[1] if len(items) > 1 else None
+            if body is None or str(body[0]) not in ('MAX_REPEAT',
+                                                    'MIN_REPEAT'):
+                continue
+            inner = list(body[1][2])
+            excluded = None
+            if len(inner) == 1 and str(inner[0][0]) == 'NOT_LITERAL':
+                excluded = {inner[0][1]}
+            elif len(inner) == 1 and str(inner[0][0]) == 'IN' and \
+                    inner[0][1] and str(inner[0][1][0][0]) == 'NEGATE':
+                excluded = set()
+                for kind, val in inner[0][1][1:]:
+                    if str(kind) == 'LITERAL':
+                        excluded.add(val)
+                    else:
+                        excluded = None
+                        break
+            if excluded is None:
+                continue
+            n += 1
+            construct = f'{g.relpath}:{name}:Regex'
+            extra = sorted(chr(x) for x in excluded - {34, 10, 13})
+            ctx.instance(rule, construct,
+                         sample={'pattern': pat_, 'excluded': sorted(
+                             chr(x) for x in excluded)})
+            if extra:
+                ctx.finding(rule, construct,
+                            f'the quoted-item pattern {pat_!r} ({name}) '
+                            f'also stops at {extra}: a quoted item that '
+                            f'contains such a character is split or '
+                            f'rejected instead of being taken verbatim',
+                            g.relpath, c.lineno)
+    ctx.floor('quoted-item regexes in the grammar', n, 2)
+
+
 def run(ctx):
     ctx.clauses = [
         'type-id protocol between gen_read_stmt and _exec_read',
@@ -353,6 +418,7 @@ def run(ctx):
     read_cursor(ctx, r)
     source_order(ctx)
     quoted_verbatim(ctx)
+    quoted_regexes(ctx)
     return ('Protocol agreement between gen_read_stmt/gen_restore_stmt and '
             'DataDevice (type ids, operand types, emission order), '
             'non-negativity of every RESTORE operand the generator can '
